@@ -238,6 +238,11 @@ def gen_trigger_case(rng):
     pair_kind = kinds[0] if kinds and rng.random() < 0.3 else None
     for kind, pos in zip(kinds, chosen):
         phrase, key = rng.choice(TRIGGERS[kind])
+        r_ = rng.random()
+        if r_ < 0.12:
+            phrase = phrase.upper()         # 'SURFACE TO THE BASE OF'
+        elif r_ < 0.24:
+            phrase = phrase.title()
         # whatever ordinary words follow the wording
         phrase += rng.choice(['', '', '', ' as drilled', ' as shown on the plat',
                               ' only', ' thereof', ' if any', ' as to all'])
